@@ -379,6 +379,34 @@ static void build_catalogue() {
         for (int nh : {1, 2, 6})
             ADD("snr/sinad/thd", fmt("nx=%d nharm=%d", nx, nh), keep(snr(R(nx), nh)); keep(sinad(R(nx))); keep(thd(R(nx), nh).value); keep(thd(R(nx), nh, true).harmfreq);
                 keep(sinad(abs(R(nx)), SinadType::Psd)); keep(snr(abs(R(nx)), nh, false, SinadType::Power)));
+    // ======================================================================== non-finite sample values (NaN, +-Inf) in the data arrays
+    for (int which = 0; which < 3; ++which) {
+        const double bad = which == 0 ? std::nan("") : (which == 1 ? (double)inf : -(double)inf);
+        const char* bn = which == 0 ? "nan" : (which == 1 ? "+inf" : "-inf");
+        for (int n : {1, 4, 9, 40})
+            for (int pos : {0, n / 2, n - 1}) {
+                std::string s = fmt("%s at %d of %d", bn, pos, n);
+                auto RB = [=]() { arr_real x = R(n); x[pos] = bad; return x; };
+                auto XB = [=]() { arr_cmplx x = X(n); x[pos].im = bad; return x; };
+                for (int ord : {3, 4, 7}) {
+                    ADD("MedianFilter(nonfinite data)", s + fmt(" ord=%d", ord), MedianFilter m(ord); keep(m.process(RB())); keep(m.process(R(2 * ord + 1))); keep(m.process(RB())); keep(m.process(R(3))));
+                    ADD("MedianFilter(nonfinite init)", s + fmt(" ord=%d", ord), MedianFilter m(ord, bad); keep(m.process(R(n))); keep(m.process(R(2 * ord))));
+                    ADD("medfilt(nonfinite data)", s + fmt(" ord=%d", ord), arr_real x = RB(); keep(medfilt(x, ord)));
+                }
+                ADD("sort/median/issorted(nonfinite)", s, keep(sort(RB()).first); keep(sort(RB(), Direction::Descend).second); keep(median(RB())); keep((double)issorted(RB())));
+                ADD("reductions(nonfinite)", s, keep(max(RB())); keep(min(RB())); keep((double)argmax(RB())); keep((double)argmin(XB())); keep(peak2peak(RB())); keep(mean(XB())); keep(stddev(RB())); keep(norm(XB(), 3)); keep(cumsum(RB())));
+                if (n >= 2) ADD("corr(nonfinite)", s, keep(corr(RB(), R(n, 1))); keep(corr(RB(), R(n, 1), Correlation::Spearman)); keep(corr(R(n, 1), RB(), Correlation::Kendall)));
+                ADD("filters(nonfinite)", s, FirFilterR f(R(3)); keep(f.process(RB())); keep(f.process(R(4))); FftFilter g(R(3)); keep(g.process(RB())); keep(g.process(R(8))); MAFilterR ma(3); keep(ma.process(RB())); keep(ma.process(R(7))));
+                ADD("dynamics(nonfinite)", s, Compressor c(8000, -20, 4, 6, 0.001, 0.01); keep(c.process(RB()).gain); keep(c.process(R(5)).out); Limiter l(8000, -20, 6, 0, 0.01); keep(l.process(RB()).gain); keep(l.process(R(5)).out);
+                    NoiseGate g(8000, -20, 0.001, 0.001, 0.001); keep(g.process(RB()).gain); Agc a(1.0, 60.0, 3); keep(a.process(RB()).gain); keep(a.process(XB()).gain); keep(a.process(R(5)).out));
+                ADD("adaptive(nonfinite)", s, LmsFilterR f(3, 0.1, LmsType::NLMS); keep(f.process(RB(), R(n, 1)).e); keep(f.process(R(4), R(4, 1)).y); RlsFilterC r(2); keep(r.process(XB(), X(n, 1)).e); keep(r.process(X(3), X(3, 1)).y));
+                ADD("transforms(nonfinite)", s, keep(fft(XB())); keep(rfft(RB())); keep(ifft(XB())); keep(hilbert(RB())); keep(xcorr(RB(), R(3))); keep(awgn(RB(), 10)); keep(awgn(XB(), 10)));
+                ADD("resample/multirate(nonfinite)", s, keep(resample(RB(), 3, 2)); FIRDecimator d(1, R(3)); keep(d.process(RB())); FIRInterpolator i(2); keep(i.process(RB())));
+                ADD("spectral(nonfinite)", s, if (n >= 8) { keep(welch(RB(), 8).pxx); keep(mscohere(RB(), R(n, 1), 8)); keep(snr(RB(), 2)); keep(sinad(RB())); keep(thd(RB(), 2).value); });
+                ADD("peaks/delay(nonfinite)", s, keep((double)findpeaks(RB(), 2).pks.size()); keep(peakloc(RB(), pos)); keep((double)finddelay(RB(), R(n, 1))); keep(gccphat(RB(), R(n, 1), 8000).tau));
+                ADD("detector(nonfinite)", s, PreambleDetector d(X(5), 0.5); arr_cmplx z((int)d.frame_len()); if (pos < z.size()) z[pos].re = bad; keep((double)d.process(z).has_value()); keep((double)d.process(X((int)d.frame_len())).has_value()));
+            }
+    }
     // ======================================================================== detector
     for (int nh : {1, 2, 5, 16})
         for (int nx : {0, 1, nh - 1, nh, nh + 1, 64, 65})
